@@ -66,7 +66,7 @@ def main(args):
                "walks into the instance). code side: for universe (schema, invalid instance) pairs (stride sample: up to "
                "%d invalid instances per schema) and for seeded random deep schemas, every real error with all its "
                "context errors is recorded with relative/absolute paths, instance, schema, keyword value and json_path, "
-               "and TLC evaluates the located-ness clauses on each. Non-trivial: an error whose absolute instance or "
+               "and TLC evaluates the located-ness clauses on each; the reference scenarios (store documents, nested ids, chains, recursion) add errors whose schema paths hop through references. Non-trivial: an error whose absolute instance or "
                "schema path has >= 2 elements; evaluations counts errors (incl. context)." % (2 if quick else 4))
     wd = tlc.workdir("c06lib")
     lib = calibrate.write_lib(wd + "/lib.json")
@@ -94,6 +94,33 @@ def main(args):
     outs = pmap(record_universe, tasks, chunk=32)
     n = 1500 if quick else 40000
     outs += pmap(record_random, [(i, DRAFTS[i % 4], args.seed * 1000003 + i) for i in range(n)], chunk=16)
+    # errors that pass through references (schema paths hop exactly at reference objects; store documents; nested ids)
+    import copy
+    from harness import scen, regex
+    from harness.encode import enc, enc_str
+    js = __import__("jsonschema")
+    refrecs = []
+    rid = 5 * 10 ** 7
+    for d in DRAFTS:
+        cls = _cls()[d]
+        for sc in scen.scenarios(d):
+            if sc["remote"] or sc["name"] == "dangling":
+                continue
+            base = sc["schema"].get("id" if d <= 4 else "$id", "")
+
+            def resolver_for(schema, sc=sc, cls=cls):
+                return js.RefResolver.from_schema(schema, id_of=cls.ID_OF, store=copy.deepcopy(sc["store"]))
+            for I in sc["instances"]:
+                rid += 1
+                try:
+                    rec, plain = errrec.make_record(rid, d, cls, copy.deepcopy(sc["schema"]), copy.deepcopy(I), base=base, loc=True,
+                                                    resolver_for=resolver_for)
+                except Exception:
+                    continue
+                rec["more"] = [{"u": enc_str(u), "doc": enc(doc)} for u, doc in sc["store"].items()]
+                rec["pats"] = regex.pats_table([sc["schema"]] + list(sc["store"].values()))
+                refrecs.append((rec, {"scenario": sc["name"], **sc["schema"]} and sc["schema"], I, plain))
+    outs.append(refrecs)
     recs, real = [], {}
 
     def walk(es):
